@@ -606,7 +606,10 @@ async fn run(case: &Value) -> Value {
                 senders.clear();
                 settle().await;
             }
-            "resume" => {
+            "resume" | "resume_stop" => {
+                // "resume_stop": the suspended future completes and every lane input ends before the agent is polled
+                // again (no quiescence in between): the event loop sees both at once and either runs the completed
+                // handler and then stops, or stops at once (the future is dropped); on_stop is last either way
                 let tx = {
                     let mut g = interp.susp.lock();
                     let idx = (x as usize).saturating_sub(1);
@@ -618,6 +621,9 @@ async fn run(case: &Value) -> Value {
                 };
                 if let Some(tx) = tx {
                     let _ = tx.send(());
+                }
+                if k == "resume_stop" {
+                    senders.clear();
                 }
             }
             "sync" => match senders.get_mut(&lane) {
